@@ -38,7 +38,7 @@ COMPONENTS = {"real": ["pel.peltool.peltool.main() and everything it imports, in
 ASSUMPTIONS = ["durable = handed to the OS by a successful flush/close (no fsync modelling; the property says written and closed)",
                "single-threaded peltool; faults are returned at Python-level I/O calls",
                "in-process main() stands in for a real process; exit-time flushing is modelled by the harness"]
-PROBES = ["fault:error@close", "fault:crash_after@remove", "fault:error@stdout_flush", "role:filtered", "role:junk",
+PROBES = ["pre_existing_output:partial", "fault:error@close", "fault:crash_after@remove", "fault:error@stdout_flush", "role:filtered", "role:junk",
           "fault:short@close", "fault:error@open_out"]
 
 
@@ -64,12 +64,18 @@ def gen_plan(rng, tier, run):
         plan["opts"].append("-x")
     recipes = [pelgen.gen_pel(rng, max_sections=3) for _ in range(n)]
     names = common.make_names(rng, recipes)
+    if n >= 2 and rng.random() < 0.2:
+        names[1] = names[0] + rng.choice([".pel", ".1", ".bak"])      # one name is a prefix of another
     for i, (r, nm) in enumerate(zip(recipes, names)):
         f = {"name": nm + (ext if ext and rng.random() < 0.7 else ""), "recipe": r}
         if rng.random() < 0.3:
             data = pelgen.build(r)
             f["junk"] = common.gen_junk(rng, data, pelgen.section_offsets(r), kinds=["torn", "torn", "flip", "lost", "garbage"])
         plan["files"].append(f)
+        # left-overs of an earlier run in the output directory: a partial / stale / foreign output for this input
+        if mode == "json" and rng.random() < 0.3:
+            f["pre_out"] = {"kind": rng.choice(["partial", "partial", "stale", "garbage", "empty"]), "cut": rng.randrange(1, 400),
+                            "eid": "%08X" % (r["eid"] if rng.random() < 0.8 else pelgen.gen_id(rng))}
     return plan
 
 
@@ -89,6 +95,13 @@ def materialise(w, plan, originals):
         w.mkdir(d)
     for name, data in originals.items():
         w.put("D/" + name, data)
+    outdir = "OUT" if plan.get("out") == "sep" else "D"
+    for f in plan["files"]:
+        po = f.get("pre_out")
+        if po:
+            full = json.dumps({"Private Header": {"Entry Id": "0x" + po["eid"]}, "note": "left by an earlier run " * 20}, indent=4)
+            body = {"partial": full[:po["cut"]], "stale": full, "garbage": "\x00\x01garbage", "empty": ""}[po["kind"]]
+            w.put("%s/%s.%s.json" % (outdir, f["name"], po["eid"]), body.encode())
 
 
 def argv_of(plan):
@@ -103,21 +116,34 @@ def argv_of(plan):
     return a + list(plan["opts"])
 
 
-def run_once(w, plan, originals, faults):
-    materialise(w, plan, originals)
-    res = w.run(argv_of(plan), order=plan["order"], faults=faults, file_bufsize=plan["bufsize"],
+def run_once(w, plan, originals, faults, reference=False):
+    if reference:
+        # what "the decoded output" is: the same invocation without --clean, into an empty output directory
+        materialise(w, dict(plan, files=[dict(f, pre_out=None) for f in plan["files"]]), originals)
+        argv = [a for a in argv_of(plan) if a != "-c"]
+    else:
+        materialise(w, plan, originals)
+        argv = argv_of(plan)
+    res = w.run(argv, order=plan["order"], faults=faults, file_bufsize=plan["bufsize"],
                 stdout_bufsize=plan["stdout_bufsize"])
     snap = w.snapshot()
     return res, snap
 
 
 def outputs_of(snap, w, plan, name):
-    """{relpath: bytes} of files that look like outputs for input `name`"""
+    """{relpath: bytes} of the files named <name>.<entry id>.json for input `name`
+    (the entry id is a by-construction fact; any hex spelling of it is accepted)"""
+    import re
     outdir = "OUT" if plan["out"] == "sep" else "D"
+    eid = plan["_eids"].get(name)
     res = {}
     for rel in snap:
         d, _, base = rel.rpartition("/")
-        if d == outdir and base.startswith(name + ".") and base.endswith(".json") and snap[rel][0] == "f":
+        if d != outdir or snap[rel][0] != "f" or not base.startswith(name + "."):
+            continue
+        m = re.fullmatch(r"\.([0-9A-Fa-f]+)\.json", base[len(name):])
+        # a damaged copy may still decode (possibly under another id): any id is accepted for it
+        if m and (name in plan["_junk"] or (eid is not None and int(m.group(1), 16) == eid)):
             res[rel] = w.read(rel)
     return res
 
@@ -152,11 +178,12 @@ def fault_sites(ref, plan):
                 flush_run()
                 run_key = (kind, rel)
             drains = bool(info[1])
-            run.extend((i, kind, drains) for i in range(idx, idx + count))
+            fdl = len(info) > 2 and info[2] == "fd"
+            run.extend((i, kind, drains, fdl) for i in range(idx, idx + count))
         else:
             flush_run()
             run_key = None
-            sites.append((idx, kind, False))
+            sites.append((idx, kind, False, False))
     flush_run()
     return sites
 
@@ -166,8 +193,11 @@ ERR_FOR = {"open_out": ["ENOSPC", "EACCES"], "write": ["ENOSPC", "EIO"], "flush"
 
 
 def faults_for(site, plan, rng):
-    idx, kind, drains = site
+    idx, kind, drains, fdlevel = site
     out = []
+    if fdlevel and kind == "write":
+        # legal short write at file-descriptor level: fewer bytes accepted, no error
+        out.append({"at": idx, "kind": "short_ok", "keep": rng.choice([1, 17, 100, 1000])})
     if kind in ERR_FOR:
         errs = ERR_FOR[kind]
         out.append({"at": idx, "kind": "error", "errno": errs[rng.randrange(len(errs))]})
@@ -236,21 +266,30 @@ def execute(plan):
 
     originals = {f["name"]: file_bytes(f) for f in plan["files"]}
     plan["_junk"] = [f["name"] for f in plan["files"] if f.get("junk")]
+    plan["_eids"] = {f["name"]: f["recipe"]["eid"] for f in plan["files"] if not f.get("junk")}
     violations = []
     evals = events = 0
     h = hashlib.sha256()
     with World() as w:
-        ref, ref_snap = run_once(w, plan, originals, None)
-        evals += 1
-        events += ref.events[-1][0] + 1 if ref.events else 0
-        if ref.crashed or ref.exc:
-            raise HarnessError("reference execution did not complete: %s %s" % (ref.exc, ref.stderr[-500:]))
+        ref0, ref0_snap = run_once(w, plan, originals, None, reference=True)
+        if ref0.crashed or ref0.exc:
+            raise HarnessError("reference execution did not complete: %s %s" % (ref0.exc, ref0.stderr[-500:]))
         ref_outputs = {}
         for name in originals:
-            outs = outputs_of(ref_snap, w, plan, name) if plan["mode"] == "json" else {}
+            outs = outputs_of(ref0_snap, w, plan, name) if plan["mode"] == "json" else {}
             if len(outs) == 1:
                 ref_outputs[name] = next(iter(outs.values()))
-        ref_stdout = ref.stdout_delivered if plan["mode"] == "file" else None
+        ref_stdout = ref0.stdout_delivered if plan["mode"] == "file" else None
+        if any(("D/" + n) not in ref0_snap for n in originals):
+            vio0 = {"class": "removed-without-clean", "key": "C12:%s:removed-without-clean" % plan["mode"],
+                    "detail": "an input disappeared although --clean was not given: argv=%s" % ref0.argv}
+            return {"violations": [vio0], "stats": stats, "traces": [], "events": 0, "evals": 1, "digest": ref0.digest}
+        # fault-free execution with --clean: its event list is the set of fault sites
+        ref, ref_snap = run_once(w, plan, originals, None)
+        evals += 2
+        events += ref.events[-1][0] + 1 if ref.events else 0
+        if ref.crashed or ref.exc:
+            raise HarnessError("fault-free execution did not complete: %s %s" % (ref.exc, ref.stderr[-500:]))
         remove_pos = {}
         for idx, kind, rel, info, count in ref.events:
             if kind == "remove" and rel and rel.startswith("D/"):
@@ -263,6 +302,9 @@ def execute(plan):
         h.update(ref.digest.encode())
         h.update(json.dumps(sorted(ref_snap.items())).encode())
         traces.add("ref|%s|%s|%s|%s" % (plan["mode"], plan["bufsize"], pat, len(remove_pos)))
+        for f in plan["files"]:
+            if f.get("pre_out"):
+                bump("pre_existing_output:" + f["pre_out"]["kind"])
 
         if plan.get("only_faults") is not None:
             fault_lists = plan["only_faults"]
@@ -281,7 +323,7 @@ def execute(plan):
                     a = rng.choice(fault_lists)[0]
                     if a["kind"].startswith("crash"):
                         continue
-                    later = [s for s in sites if s[0] > a["at"]]
+                    later = [x for x in sites if x[0] > a["at"]]
                     if not later:
                         continue
                     b = rng.choice(faults_for(rng.choice(later), plan, rng))
